@@ -3,7 +3,7 @@ CONSTANTS
   Kinds <- AllKinds
   Muts <- AllMuts
   TxMuts <- AllTxMuts
-  SubWheres <- W2
+  SubWheres <- WNext
   ReWheres <- AllWheres
   MaxLen = 3
 VIEW View
